@@ -144,6 +144,7 @@ UNITS = {
             I(RAW, r'^impl ProbeSeq$', 'move_next', impl='ProbeSeq'),
             I(RAW, None, 'capacity_to_buckets'),
             I(RAW, None, 'bucket_mask_to_capacity'),
+            I(RAW, r'^impl TableLayout$', 'new', impl='TableLayout', key='TableLayout::new'),
             I(RAW, r'^impl TableLayout$', 'calculate_layout_for', impl='TableLayout'),
         ],
     ),
